@@ -76,7 +76,8 @@ PROPS = {
     "C12": kprop(
         "Bounded model checking of hex parsing/formatting, packed-integer channel orders and the named-colour table: strings are symbolic "
         "byte arrays up to the stated length (ASCII, and ASCII with embedded multi-byte scalars built valid by construction), packed "
-        "values are all 2^32 at once.",
+        "values are all 2^32 at once; named colours: every ASCII string up to the longest name against svg_colors.txt, plus every listed "
+        "name (and its near misses) as a concrete lookup.",
         "Trusted: Kani/CBMC/cadical; Kani's model of core::fmt for the formatting round trip. Strings longer than the bound are outside the claim."),
     "C13": kprop(
         "Bounded model checking of in-place conversion and guards on buffers of concrete length 0..3 with symbolic contents: element-wise "
@@ -129,8 +130,11 @@ PROPS = {
         "1e-9 x range away from it - that the operation is defined (non-zero divisor, bounded quotient, non-negative radicand ...). "
         "A model is replayed natively and counts only if a result component is NaN or infinite in f32 and f64.",
         "Trusted: z3. Real-arithmetic definedness: NaN produced by rounding alone (a radicand that is >= 0 in the reals but negative "
-        "after cancellation) is outside the Engine-S claim; Engine K adds bit-precise kernels (is_valid_divisor, and in the thorough tier "
-        "RGB->HSL/HSV, HSV<->HSL, HWB->HSV, XYZ<->xyY in f32). The cusp-search spaces (Okhsl/Okhsv/HSLuv) and CAM16 are not covered.",
+        "after cancellation) is outside the Engine-S claim; Engine K adds bit-precise f32 kernels (is_valid_divisor, RGB->HSL/HSV, "
+        "HSV<->HSL, HWB<->HSV, XYZ<->xyY, blend modes) and kernels over N32 = exact f32 arithmetic with NONDETERMINISTIC transcendental "
+        "functions constrained only by range / sign / NaN-domain (Lch and Lab Delta E, XYZ<->Lab, polar pairs, XYZ->Luv, linear "
+        "sRGB<->Oklab): finite for every libm; counterexamples are replayed with the real f32 functions. The cusp-search spaces "
+        "(Okhsl/Okhsv/HSLuv) and the CAM16 inverse are not covered.",
         engines=("kani", "symx")),
     "C08": sprop(
         "Symbolic execution of the real Blend / Compose / Premultiply code (PreAlpha, Alpha and opaque forms, LinSrgb) and an "
@@ -142,7 +146,8 @@ PROPS = {
     "C09": sprop(
         "Symbolic execution of the real colour-difference code (Delta E, improved Delta E, HyAB, Euclidean, Lch forms, WCAG contrast, "
         "CIEDE2000): z3 decides for ALL pairs of colours in the stated boxes equality with the closed forms / the Sharma reference, "
-        "symmetry, non-negativity, zero for identical colours, contrast range and threshold predicates.",
+        "symmetry, non-negativity, zero for identical colours, contrast range and that each of the five WCAG threshold predicates holds "
+        "exactly when the ratio reaches its constant.",
         "Trusted: z3; the CIEDE2000 transcription (symx/src/reference/ciede2000.rs). CIEDE2000 = Sharma reference and symmetry are decided "
         "on 36 hue/chroma configurations (hue pairs straddling 0/360 in both orders, pairs more than 180 degrees apart) with one lightness "
         "symbolic; over all six variables they are Open obligations (not decided by z3, DESIGN.md 9.4)."),
@@ -151,13 +156,17 @@ PROPS = {
         "symbolic colour: the forward model against an independent transcription of the published equations (Li et al. 2017, Appendix A, "
         "incl. the viewing-condition quantities) - J, Q, C, M, s for every XYZ in [0.05, 1]^3 under three viewing conditions (average / "
         "dim / dark surround, D65 / D50, L_A 40 / 64), decided after a canonicalisation of the arithmetic that makes the arguments of the "
-        "uninterpreted powf / cos / atan2 on both sides the same terms; the CAM16-UCS formulas and their inverses (exp/ln axioms), Jab <-> "
-        "Jmh (trigonometric axioms), each of the six partial types = the full model's attributes (syntactic identity), black <-> black, "
-        "adopted white has J = 100.",
-        "Trusted: z3; the transcription (symx/src/reference/cam16.rs); the canonicalisation pass pv/canon.py (real-arithmetic identities + "
-        "rounding of polynomial coefficients to 12 significant digits, six orders of magnitude below the tolerances). The XYZ -> CAM16 -> "
-        "XYZ round trips are Open obligations (z3 does not decide them): the INVERSE model is NOT covered, two seeded changes to it were "
-        "missed (DESIGN.md 9.4, 9.7). Hue is checked through the UCS / partial obligations, not in the forward differential."),
+        "uninterpreted powf / cos / atan2 on both sides the same terms; the INVERSE model (into_xyz of the six partial types: J or Q with C, M "
+        "or s) against an independent transcription of the paper's inverse steps (its case split on |sin h| >= |cos h|, its own inverse of "
+        "M16, its unadaptation formula) on four hue arcs under one viewing condition per type, decided after flattening nested quotients "
+        "into one rational function per quantity; the CAM16-UCS formulas and their inverses (exp/ln axioms), Jab <-> Jmh (trigonometric "
+        "axioms), each of the six partial types = the full model's attributes (syntactic identity), black <-> black, adopted white has J = 100.",
+        "Trusted: z3; the transcriptions (symx/src/reference/cam16.rs); the canonicalisation pass pv/canon.py (real-arithmetic identities on "
+        "the stated domain + rounding of polynomial coefficients to 12 significant digits, six orders of magnitude below the tolerances). "
+        "XYZ -> CAM16 -> XYZ as ONE composed query is an Open obligation (not decided); the round trip is covered through its halves "
+        "(forward = published forward, inverse = published inverse). Hue is checked through the UCS / partial obligations, not in the "
+        "forward differential. For the two differentials a native evaluation at 12 sample points precedes the solver: it can only "
+        "produce replayed violations, never a pass (DESIGN.md 9.9)."),
     "C17": sprop(
         "Two halves. Engine S: the mask-generic code path (what every SIMD lane computes: all lazy_select branches evaluated and blended "
         "by masks, the separate SIMD branches of RGB->HSV/HSL) equals the scalar code path (what f32/f64 compute); the real functions are "
@@ -165,7 +174,7 @@ PROPS = {
         "output differs by more than the tolerance. Engine K: palette's glue for the real `wide` types (num/wide.rs, bool_mask/wide.rs, "
         "angle/wide.rs, macros/simd.rs) compiled with the `wide` feature, over the real f32x4 / f64x2 (quick) and f32x8 / f64x4 (thorough): "
         "comparisons, masks (from_bool, is_true, is_false, select, lazy_select), min/max/clamp/abs/floor/ceil/signum, is_valid_divisor, "
-        "array <-> SIMD colour packing, bounds / clamp of SIMD colours and of slices of them - all lanes symbolic, bit for bit against the "
+        "array <-> SIMD colour packing (Rgb, Hsv, Lab, Alpha and premultiplied PreAlpha colours), bounds / clamp of SIMD colours and of slices of them - all lanes symbolic, bit for bit against the "
         "scalar function of each lane's input; hue normalisation, angle equality and RGB <-> HSV with one lane symbolic (the others on other "
         "branches).",
         "Trusted: z3, Kani/CBMC/cadical, and the 28 lane-wise models of the SSE/SSE2 intrinsics that Kani cannot translate or mistreats "
@@ -191,7 +200,8 @@ PROPS = {
         ["reference thresholds come from the standards' constants, not from /repo"], engines=("kani", "symx")),
     "C11": sprop(
         "Bit-precise bounded model checking of hue normalisation, equality and 8-bit conversion: all f32 (quick) / f64 (thorough) "
-        "angles with |x| <= 2^20 are one symbolic input; range, congruence modulo 360, equality under whole turns, inequality, "
+        "angles with |x| <= 2^20 are one symbolic input; range, congruence modulo 360 (the signed form to within 2 ulp of the STORED "
+        "angle, however small), equality under whole turns, inequality, "
         "accessor consistency, u8 round trip and circle mapping are SAT-decided on the compiled code for all five hue types.",
         "Trusted: Kani/CBMC/cadical. The trigonometric half (from_cartesian / into_cartesian direction) is decided by Engine S. "
         "Obligations containing two float divisions are thorough-tier.", engines=("kani", "symx")),
